@@ -163,13 +163,14 @@ def run(ctx):
     # _fmt_indented_block with indent='' is the identity up to surrounding newlines
     fb = meths.get('_fmt_indented_block')
     if fb is not None:
-        s0 = sorted([x for x in iter_own(fb) if isinstance(x, ast.Assign)], key=lambda x: x.lineno)
-        cparam = fb.args.args[1].arg
-        txt = unparse(s0[0].value) if s0 else ''
-        ok = cparam in txt and 'indent' in txt and txt.count('replace') == 1
-        ctx.decide('R12b', ok, m, fb, 'block = "\\n"+indent+contents.replace("\\n","\\n"+indent)+"\\n"',
-                   '_fmt_indented_block no longer builds the block from the contents and the '
-                   'indent only', construct='_fmt_indented_block shape', trivial=True)
+        from .c03 import indented_block_shape
+        v, why = indented_block_shape(fb)
+        if v is None:
+            ctx.unknown('R12b', m, fb, why, construct='_fmt_indented_block shape')
+        else:
+            ctx.decide('R12b', v, m, fb, 'block = NL + indent + contents.replace(NL, NL + indent) + NL: '
+                                         'with indent=\'\' the contents are reproduced unchanged',
+                       '_fmt_indented_block: %s' % why, construct='_fmt_indented_block shape')
 
     # ------------------------------------------------------------------ R12b2 cross-table
     wt = tables.WalkerTable(repo)
